@@ -143,6 +143,8 @@ class RepEngine:
                     e = e["e"]
                 elif k in ("Field", "Cast"):
                     e = e["e"]
+                elif k == "Block" and e.get("expr") is not None:
+                    e = e["expr"]                    # the value of a block (e.g. the surviving branch of a projected `if`)
                 elif k == "MCall" and e.get("name") in ACCESSORS:
                     rt = facts.ty_adj(e["recv"])
                     if is_key_ty(rt) or is_key_ty(facts.ty(e["recv"])):
@@ -394,6 +396,12 @@ class RepEngine:
                     report("domain", "%s applied to `%s`, which is already in %s form on this path" %
                            (name, _name(tgt), "NTT" if new == "ntt" else "coefficient"), n)
                 return setb(st, key, (new, "lazy" if "lazy" in name else "canon"))
+            if is_poly and base.startswith("negacyclic_"):
+                # multiplication by X^k as an index shift with sign flips: meaningful on coefficient vectors only
+                if bufargs:
+                    need(st, bufargs[0], "coeff", name + " (a shift of coefficient positions)", n)
+                out = args[0] if "inplace" in base else (bufargs[-1] if bufargs else None)
+                return setb(st, key_of(out, st) if out is not None else None, ("coeff", "canon"))
             if is_poly and base.startswith("dyadic_product"):
                 out = args[0] if "inplace" in base else (bufargs[-1] if bufargs else None)
                 ins = bufargs if "inplace" in base else bufargs[:-1]
@@ -439,6 +447,10 @@ class RepEngine:
                 out = bufargs[-1] if bufargs else None
                 val = ("any", "canon") if name == "uniform" else ("coeff", "canon")
                 return setb(st, key_of(out, st) if out is not None else None, val)
+            if name == "poly_infty_norm" and bufargs:
+                # the centred infinity norm of a polynomial is a statement about its COEFFICIENTS
+                need(st, bufargs[0], "coeff", "poly_infty_norm (a norm of coefficients)", n)
+                return st
             # ---- wire sink
             if name == "write_u64_limited" and len(args) >= 2:
                 key = key_of(args[1], st)
